@@ -544,6 +544,8 @@ Proof. intros. apply init_minv. Qed.
        its side conditions, lands on a snapshot coupled to the new state, and the new state satisfies J
        (three decidable conditions -- run_ok_b, coupled_b, inv_core_b && ntc_b -- that the correspondence
        evaluates on every real transaction),
+       (also with any other stored workflow the result is coupled to: reach_certified_state, used where
+       model/Graph.v lags behind the code, see proofs/SchedGraphMachine.v),
      - the metadata updates of pop_next_job.
      - finalize.revert_optional_steps between two phases (FlagInv proved for it from any state:
        C11_revert_optional_keeps_flag_invariant; the stored workflow its result is coupled to is certified).
